@@ -264,6 +264,13 @@ func init() {
 			g.ft.Flatten = true
 			g.ft.NT = g.r.Range(2, 4)
 			g.ft.GroupDecs = g.r.P(0.2)
+			// rejected feeders (duplicates of their other results, cycles in
+			// the target or only in a descendant scope) must not feed
+			g.ft.Wild = []float64{0, 0.1, 0.3}[g.r.Intn(3)]
+			g.ft.PDup = 0.2
+			if g.r.Intn(4) == 0 {
+				g.tmpl = (*genCtx).tmplDescendantCycleGroup
+			}
 		}, Mix{Scope: 3, Provide: 12, Decorate: 1, Invoke: 9, VisStr: 0}),
 		Eval: evalSimple("C10", func(c *Checked) bool {
 			return c.Probes["group_feeders>=3"] > 0 || c.Probes["feeder_added_between"] > 0
